@@ -30,7 +30,7 @@ PROPS = {
     "C15": dict(streams=["c15"], items=["keycodes", "layoutkeys", "charclasses", "rankcmp"]),
     "C16": dict(streams=["c16"], items=["keycodes", "layoutkeys", "charclasses", "rankcmp", "okkhor", "okkhorregex", "bijoy"]),
     "C17": dict(streams=["c17"], items=["keycodes", "layoutkeys", "charclasses", "rankcmp", "okkhor", "okkhorregex"]),
-    "C18": dict(streams=["c18"], items=["keycodes", "layoutkeys", "charclasses", "rankcmp", "okkhor", "okkhorregex"]),
+    "C18": dict(streams=["c18"], items=["keycodes", "layoutkeys", "charclasses", "rankcmp", "okkhor", "okkhorregex", "emojicon"]),
     "C19": dict(streams=["c19"], items=["keycodes", "layoutkeys", "charclasses", "rankcmp", "okkhor", "okkhorregex"], prebuild="ffi/build.sh"),
     "C12": dict(streams=["c12"], items=["keycodes", "layoutkeys", "charclasses"]),
     "C13": dict(streams=["c13"], items=["keycodes", "layoutkeys", "charclasses"]),
@@ -44,7 +44,7 @@ TRUSTED_BASE = [
     "tools/translate.py: reads the regular shape of the Rust items it names (constants, match arms, string literals) into Lean tables; fails loudly otherwise",
     "correspondence check: hand-written Lean model agrees with the real library on the traces run (harness/ + lean/Driver); reach bounded by the generators, complete where the space is finite",
     "modelled and re-validated on every run (each trace line carrying their result is recomputed by the Lean model): okkhor's transliterator and regex generator, matching of the regex fragment used (not the compile-size limit of the regex crate), serde_json for a map of strings and for a layout / data file (Value reader, the layout member, from_value; not: the f64 range test of numbers — such documents are answered unsupportedNumber and not compared), poriborton's Bijoy encoder; complete-domain comparison (stream tie) of the key maps and Rank::cmp",
-    "parameters of the model (not verified): the OS and file system (files appear as absent / unreadable / parsed + mtime), HashMap as a finite map, slice::sort as the stable sort, sort_unstable as some sorting permutation, the emojicon tables and the data files",
+    "parameters of the model (not verified): the OS and file system (files appear as absent / unreadable / parsed + mtime), HashMap as a finite map, slice::sort as the stable sort, sort_unstable as some sorting permutation, the data files; the emojicon tables are parameters of the general theorems, for C18 they are instantiated (Props/EmojiTables) with the tables tools/translate.py reads from the crate's source (item emojicon), which the driver compares entry by entry with the tables the compiled crate serves on every trace",
 ]
 
 def sh(cmd, cwd=None, timeout=None, env=None):
@@ -82,7 +82,9 @@ EXTRA = {
             (os.path.join("Props", "RegexFast.lean"), "Regex", "RitiModel.Props.RegexFast"), REAL],
     "C16": [(os.path.join("Props", "Bijoy.lean"), "Bijoy", "RitiModel.Props.Bijoy"), REAL],
     # the parameters instantiated with the real transliterator / dictionary look-up / encoder (provisos discharged to the data files)
-    "C03": [REAL], "C17": [REAL], "C18": [REAL, SORT], "C19": [REAL],
+    # C18 also: the bundled emojicon tables inside the model (translator item `emojicon`), kernel-checked facts about them and the C18
+    # theorems instantiated on them; the driver compares the generated tables with what the compiled crate serves (`MISMATCH emoji-table`)
+    "C03": [REAL], "C17": [REAL], "C18": [REAL, SORT, (os.path.join("Props", "EmojiTables.lean"), "EmojiTables", "RitiModel.Props.EmojiTables")], "C19": [REAL],
     # the fixed-method dictionary pattern ^clean[class]{0,n}$: the model's direct characterisation is its language
     # vowels typed with their SIGN keys under the old vowel-sign order (exact conditions, witnesses for the boundary cases)
     "C14": [(os.path.join("Props", "C14Signs.lean"), "C14Signs", "RitiModel.Props.C14Signs")],
@@ -360,6 +362,15 @@ def main():
                 ops += summ["ops"]; cases += summ["cases"]
                 for k, v in summ.get("counters", {}).items(): counters[k] = counters.get(k, 0) + v
                 if summ.get("missing", 0): mism.append(f"MISMATCH {summ['missing']} model look-ups had no table entry in {os.path.basename(trace)}")
+                # the tie of the GENERATED emojicon tables (translator item `emojicon`) with the tables the compiled crate serves is part of
+                # every trace (the `load` lines), but only the theorems of C18 (Props/EmojiTables) are about the generated tables: for the
+                # other properties the model runs on the served tables, so a difference there is a note, not a broken tie
+                if pid != "C18":
+                    et = [m for m in mism if m.startswith("MISMATCH emoji-table")]
+                    if et:
+                        mism = [m for m in mism if not m.startswith("MISMATCH emoji-table")]
+                        note = f"the generated emojicon tables differ from the tables the compiled crate serves ({len(et)} lines, e.g. {et[0][:160]}); the theorems of {pid} do not depend on the generated tables (counts for C18)"
+                        if note not in extra_notes and not any(n.startswith("the generated emojicon tables differ") for n in extra_notes): extra_notes.append(note)
                 mismatches += [(trace, m) for m in mism]
         if mismatches:
             broken.append(f"correspondence:{streams} {len(mismatches)} lines differ, first: {mismatches[0][1][:400]}")
